@@ -7,6 +7,7 @@ import (
 	"crypto/x509"
 	"encoding/base64"
 	"fmt"
+	"html/template"
 	"io"
 	"math/rand"
 	"net/http"
@@ -256,16 +257,32 @@ type c06Input struct {
 	intermediates bool
 	viaServe      bool // use ServeSSO instead of the step-by-step API
 	method        string
+	// configuration options of the IdentityProvider that must not change what is emitted
+	customMaker    bool // idp.AssertionMaker set (delegates to DefaultAssertionMaker)
+	customTemplate bool // idp.ResponseFormTemplate set
+	viaHandler     bool // enter through idp.Handler() instead of calling ServeSSO directly
 }
 
+type countingMaker struct{ calls int }
+
+func (m *countingMaker) MakeAssertion(req *saml.IdpAuthnRequest, session *saml.Session) error {
+	m.calls++
+	return saml.DefaultAssertionMaker{}.MakeAssertion(req, session)
+}
+
+var c06CustomTemplate = template.Must(template.New("custom-form").Parse(`<!doctype html><body data-custom-template="yes" onload="document.forms[0].submit()">` +
+	`<form method="post" action="{{.URL}}"><input type="hidden" name="SAMLResponse" value="{{.SAMLResponse}}" />` +
+	`<input type="hidden" name="RelayState" value="{{.RelayState}}" /><noscript><button>Continue</button></noscript></form></body>`))
+
 type c06Result struct {
-	kind    string // "form" "err" "panic"
-	detail  string
-	form    formObs
-	rnd     mRands
-	encRaw  [][]byte
-	samlRaw [][]byte
-	html    string
+	kind           string // "form" "err" "panic"
+	detail         string
+	form           formObs
+	rnd            mRands
+	encRaw         [][]byte
+	samlRaw        [][]byte
+	html           string
+	optionProblems []string
 }
 
 func runResponse(c *Ctx, in c06Input) (res c06Result) { return runResponseWith(c, in, nil) }
@@ -277,6 +294,24 @@ func runResponseWith(c *Ctx, in c06Input, encSource io.Reader) (res c06Result) {
 	if in.intermediates {
 		idp.Intermediates = []*x509.Certificate{fix.Cert("rsa_3072")}
 	}
+	var maker *countingMaker
+	if in.customMaker {
+		maker = &countingMaker{}
+		idp.AssertionMaker = maker
+	}
+	if in.customTemplate {
+		idp.ResponseFormTemplate = c06CustomTemplate
+	}
+	defer func() {
+		if res.kind == "form" {
+			if in.customTemplate != strings.Contains(res.html, "data-custom-template") {
+				res.optionProblems = append(res.optionProblems, "ResponseFormTemplate setting not honoured")
+			}
+			if maker != nil && (in.wire == nil || in.viaServe) && maker.calls != 1 {
+				res.optionProblems = append(res.optionProblems, fmt.Sprintf("configured AssertionMaker called %d times", maker.calls))
+			}
+		}
+	}()
 	sr, er := newStream(c.Rng, 48), newStream(c.Rng, 96)
 	oldS, oldE := saml.RandReader, xmlenc.RandReader
 	saml.RandReader, xmlenc.RandReader = sr, er
@@ -315,7 +350,13 @@ func runResponseWith(c *Ctx, in c06Input, encSource io.Reader) (res c06Result) {
 		hr = httpRequest(in.method, in.cfg.SSOURL, encodeFor(in.method, []byte(in.wire.xml())), in.relay)
 		hr.RemoteAddr = in.addr
 		if in.viaServe {
-			rec := observeHTTP(func(w http.ResponseWriter) { idp.ServeSSO(w, hr) })
+			rec := observeHTTP(func(w http.ResponseWriter) {
+				if in.viaHandler {
+					idp.Handler().ServeHTTP(w, hr)
+				} else {
+					idp.ServeSSO(w, hr)
+				}
+			})
 			if rec.Kind == "panic" {
 				panic(rec.Body)
 			}
@@ -378,6 +419,7 @@ func extraChecks(in c06Input, res c06Result) []string {
 	}
 	r := res.form.Resp
 	var out []string
+	out = append(out, res.optionProblems...)
 	out = append(out, r.Problems...)
 	out = append(out, r.Sig.Problems...)
 	signerID := in.cfg.Key
@@ -443,7 +485,7 @@ func c06Emit(c *Ctx, g *Group, in c06Input, key map[string]string) {
 		Key: key,
 		Input: map[string]any{"flow": kind, "cfg": in.cfg, "metadata": in.md, "registry_key": in.regKey, "request_xml": reqXML, "session": in.sess,
 			"now": in.now.Format(time.RFC3339Nano), "time_now_at_assertion": in.tnow.Format(time.RFC3339Nano), "remote_addr": in.addr, "relay_state": in.relay,
-			"intermediates": in.intermediates, "via_serve_sso": in.viaServe},
+			"intermediates": in.intermediates, "via_serve_sso": in.viaServe, "custom_assertion_maker": in.customMaker, "custom_form_template": in.customTemplate, "via_handler": in.viaHandler},
 		Obs: obsJSON,
 		Term: fmt.Sprintf("{| c6_cfg := %s; c6_md := %s; c6_certs := %s; c6_rq := %s; c6_sess := %s; c6_now := %s; c6_tnow := %s; c6_addr := %s; c6_relay := %s; c6_rnd := %s; c6_obs := %s |}",
 			in.cfg.term(), in.md.term(), certTable(in.md), rqTerm(in.wire, in.issue), in.sess.term(), emitTime(in.now), emitTime(in.tnow), emit.Str(in.addr), emit.Str(in.relay),
@@ -466,6 +508,8 @@ func genInput06(r *rand.Rand, kds func(*rand.Rand) []mKeyDesc) (c06Input, map[st
 		key["regkey"] = "differs-from-entityID"
 	}
 	in.intermediates = r.Intn(4) == 0
+	in.customMaker, in.customTemplate, in.viaHandler = r.Intn(5) == 0, r.Intn(5) == 0, r.Intn(3) == 0
+	key["options"] = fmt.Sprintf("maker=%v,template=%v,handler=%v", in.customMaker, in.customTemplate, in.viaHandler)
 	in.tnow = in.now
 	key["flow"] = "sp-initiated"
 	if r.Intn(5) == 0 {
